@@ -5,7 +5,8 @@ absent), the auxiliary algorithm observed through a spy peer (delegation is an e
 when the auxiliary is KwikSort. Oracle: brute-force minimiser set.
 """
 from .. import gen, model
-from ..lib import (build_dataset, build_scheme, canon_ranking, jsonable_ranking, call, exc_label, key_of,
+from ..lib import (build_dataset, build_scheme, canon_ranking, jsonable_ranking, call, exc_label, key_of, alg_label,
+                   build_alg,
                    ConsensusFeature, OrderedPartition)
 from ..seed import digest
 from .common import Discard, run_alg, well_formed, dataset_tags
@@ -50,7 +51,17 @@ def gen_case(st, tier, env):
     n_univ = len({e for r in ds["rankings"] for b in r for e in b})
     others = [{"alg": gen.gen_alg(w, env, heavy_ok=n_univ <= 6), "sched": gen.gen_sched(st.schedule)}
               for _ in range(2)]
-    return {"dataset": ds, "scheme": scheme, "parcons": pcs, "others": others}
+    case = {"dataset": ds, "scheme": scheme, "parcons": pcs, "others": others}
+    if k.random() < 0.3:
+        # history: the same Dataset object and the same algorithm instances are asked again under a second scheme that
+        # shares the B vector (possibly rescaled) but not the T vector, then under the first one again
+        mult = k.choice([1, 1, 2, 0.5])
+        vals = [0, 1, 2, 4, 8, 3]
+        g = lambda: w.choice(vals) / 8.0
+        t0, t3 = g(), g()
+        case["scheme2"] = {"B": [v * mult for v in scheme["B"]], "T": [t0, t0, 0.0, t3, t3, g()],
+                           "family": "sameB-otherT"}
+    return case
 
 
 def nontrivial(probes):
@@ -69,15 +80,37 @@ def _respects(vec_of, groups):
 
 
 def run_case(case, ctx):
+    world = {"ds": build_dataset(case["dataset"]), "instances": {}}
+    _phase(case, ctx, world, case["scheme"])
+    if case.get("scheme2"):
+        ctx.probe("second_scheme_phases")
+        _phase(case, ctx, world, case["scheme2"])
+        _phase(case, ctx, world, case["scheme"])
+
+
+def _instance(world, spec, with_spies):
+    lab = alg_label(spec) + ("/spied" if with_spies else "")
+    if lab not in world["instances"]:
+        spies = []
+        ok, alg = call(build_alg, spec, spies, with_spies)
+        world["instances"][lab] = (alg if ok else None, spies)
+    alg, spies = world["instances"][lab]
+    for sp in spies:
+        del sp.calls[:]
+    return alg, spies
+
+
+def _phase(case, ctx, world, scheme_spec):
     mr = model.normalise(case["dataset"]["rankings"])
     elems = model.universe(mr)
     idx = {e: i for i, e in enumerate(elems)}
-    B, T = case["scheme"]["B"], case["scheme"]["T"]
+    B, T = scheme_spec["B"], scheme_spec["T"]
     cost = model.ref_cost(mr, elems, B, T)
     opt, mins = model.optimum(cost, want_minimisers=True)
-    tags = dataset_tags(mr, case["scheme"])
-    ds = build_dataset(case["dataset"])
-    sc = build_scheme(case["scheme"])
+    tags = dataset_tags(mr, scheme_spec)
+    tags["scheme_family"] = scheme_spec.get("family")
+    ds = world["ds"]
+    sc = build_scheme(scheme_spec)
     ctx.event("world", model.canon(mr), B, T, ctx.env, opt)
 
     # (a)+(b) the partition itself -----------------------------------------------------------------------
@@ -128,7 +161,11 @@ def run_case(case, ctx):
     for pc in case["parcons"]:
         solves0 = (cplex_stats["solves"] + cplex_stats["populates"]) if cplex_stats else 0
         try:
-            out = run_alg(pc["alg"], ds, sc, True, pc["sched"], spy_nested=True)
+            inst, inst_spies = _instance(world, pc["alg"], True)
+            if inst is None:
+                continue
+            out = run_alg(pc["alg"], ds, sc, True, pc["sched"], alg=inst)
+            out.spies = inst_spies
         except Discard:
             ctx.probe("discarded_stub_capacity")
             continue
@@ -178,7 +215,10 @@ def run_case(case, ctx):
     # (d) for any other algorithm -------------------------------------------------------------------------
     for oc in case["others"]:
         try:
-            out = run_alg(oc["alg"], ds, sc, True, oc["sched"])
+            inst, _ = _instance(world, oc["alg"], False)
+            if inst is None:
+                continue
+            out = run_alg(oc["alg"], ds, sc, True, oc["sched"], alg=inst)
         except Discard:
             ctx.probe("discarded_stub_capacity")
             continue
